@@ -2,8 +2,9 @@
   Property C01 — dense direct solvers (model: Ohsl/Model/Solve.lean).
   Proved here: (S) the entry guards — a non-square matrix or a right-hand side of the wrong
   length is rejected by both solvers before anything is computed, for ANY scalar type.
-  The exact-arithmetic soundness theorems (A x = b) are in Ohsl/Props/C01Sound.lean when present;
-  see obligations.json for what is and is not proved.
+  The exact-arithmetic theorems are in C01S (soundness, uniqueness, agreement), C01C (completeness,
+  iff det ≠ 0), C01X (generic pivot order, complex scalars), C01O (order 0); the rounded-arithmetic
+  ones in C01F / C01G.
 -/
 import Ohsl.Model.Solve
 set_option linter.unusedSectionVars false
